@@ -305,10 +305,7 @@ class Oracle:
 
     def _step(self, k, arg, had_arg, rep, op, name, status, t0, c0, ring0, sel0, regs0, t1, c1, ring1, regs1, head0):
         if status != 0:
-            # no command of this family may raise on a consistent state, except pastes with a count that
-            # cannot be typed in Vi / LINES data yanked with a non-positive emacs argument (outside the property)
-            if k in (7, 17, 36, 37, 38, 39) and arg <= 0:
-                return None
+            # no command of this family may raise on a consistent state
             return (name + " raised (status %d)" % status, "raise")
         if k == 1:
             a, e = _line_bounds(t0, c0)
@@ -445,11 +442,13 @@ class Oracle:
             # LINES data stands for its lines plus a line ending: when the selection ends on an empty last
             # line the implementation stores the lines without that empty one (same lines once pasted)
             texts = [text] + ([text[:-1]] if ty == 1 and text.endswith("\n") and le == len(t0) else [])
-            fam = "vi-register-block-operator" if (ty == 2 and key != 2) else "vi-register"
+            # a one-cell block (cursor still on the origin) is the residual of C09-F3, see design.d/C09.md (C09-F5)
+            single = (ty == 2 and key != 2 and m == c0)
+            fam = "vi-block-operator-single-cell" if single else "vi-register"
             okay = False
             for tx in texts:
                 entry = [S(tx), ty]
-                stored_expected = (not to_reg or validreg) and (tx != "" or key in (2, 4))
+                stored_expected = (not to_reg or validreg) and (tx != "" or key == 2)
                 if to_reg:
                     want_regs = dict((kk, v) for kk, v in regs0)
                     if stored_expected:
@@ -476,7 +475,7 @@ class Oracle:
             want += t0[last:]
             if t1 != want:
                 return (name + ": text' is not text without the selected span(s)",
-                        "vi-register-block-operator" if (ty == 2 and key != 2) else "vi-cut")
+                        "vi-block-operator-single-cell" if single else "vi-cut")
             return None
         return None
 
